@@ -77,4 +77,7 @@ def handle_line(proto, line):
         exc = type(e).__name__
     except Exception as e:
         exc = type(e).__name__
+    except BaseException as e:   # noqa
+        # not caught by socketserver's `except Exception` either: it leaves serve_forever, the manager ends
+        shutdown, exc = True, type(e).__name__
     return HandlerOutcome(wfile.getvalue(), shutdown, exc)
